@@ -30,6 +30,8 @@ func TestMakeExemplars(t *testing.T) {
 			MCall(MCall(List(Int(10), Int(20)), "map", Lam([]string{"b"}, Bin("+", Bin("*", Var("a"), Var("b")), SCall("ik", Int(1))))), "sum"))), "sum"), []*Expr{Int(7)}},
 		{"impure-in-recursive-closure-on-constants", Func("r", []string{"n"}, If(Bin("<=", Var("n"), Int(0)), Int(0), Bin("+", SCall("ik", Var("n")), Call(Var("r"), Bin("-", Var("n"), Int(1))))),
 			Call(Var("r"), Int(3))), []*Expr{Int(7)}},
+		{"F30-closure-field-named-like-a-map-method", MCall(Map([]string{"v", "get"}, []*Expr{Int(0), Lam([]string{"s"}, Bin("+", MCall(Var("s"), "len"), Int(10)))}), "get", Str("v")), []*Expr{Int(7)}},
+		{"F30-closure-field-named-isAvail", Bin("+", MCall(Map([]string{"v", "isAvail"}, []*Expr{Int(0), Lam([]string{"s"}, Bin("+", MCall(Var("s"), "len"), x))}), "isAvail", Str("isAvail")), Int(1)), []*Expr{Int(7)}},
 		{"impure-in-untaken-branch", If(Bin("<", x, Int(0)), SCall("ik", x), Bin("+", SCall("ik", Int(1)), SCall("pk", Int(2)))), []*Expr{Int(7)}},
 	}
 	for _, e := range exs {
